@@ -118,15 +118,28 @@ def _file(item):
         if raised is not None and raised.info.get("severity") != sev[0]:
             bad("C10|loader-info-severity", f"UnsafeFileError.info severity {raised.info.get('severity')} != {sev[0]}")
     # CLI
-    for use_json, use_print in itertools.product((False, True), repeat=2):
+    from .c06 import RawNonSeekable
+
+    class _In:
+        def __init__(self):
+            self.buffer = io.BufferedReader(RawNonSeekable(data))
+
+    import sys
+
+    for (use_json, use_print), via_stdin in itertools.product(itertools.product((False, True), repeat=2), (False, True)):
+        if via_stdin and use_print:
+            continue
         cwd = os.getcwd()
         os.chdir(d)
         report = os.path.join(d, "report.json") if use_json else os.path.join(d, "safety_results.json")
         for pth in (os.path.join(d, "report.json"), os.path.join(d, "safety_results.json")):
             if os.path.exists(pth):
                 os.remove(pth)
-        argv = ["fickling", "--check-safety", path] + (["--json-output", report] if use_json else []) + (["--print-results"] if use_print else [])
+        argv = ["fickling", "--check-safety"] + ([] if via_stdin else [path]) + (["--json-output", report] if use_json else []) + (["--print-results"] if use_print else [])
         so, se = io.StringIO(), io.StringIO()
+        old_stdin = sys.stdin
+        if via_stdin:
+            sys.stdin = _In()  # the file piped in: a stream that cannot seek
         try:
             with redirect_stdout(so), redirect_stderr(se):
                 rc = cli.main(argv)
@@ -135,9 +148,10 @@ def _file(item):
         except Exception as e:  # noqa: BLE001
             rc = f"{type(e).__name__}: {e}"
         finally:
+            sys.stdin = old_stdin
             os.chdir(cwd)
         st.inc("cli_runs")
-        opt = f"json={int(use_json)},print={int(use_print)}"
+        opt = f"json={int(use_json)},print={int(use_print)}" + (",stdin" if via_stdin else "")
         all_safe = all(s == "LIKELY_SAFE" for s in sev)
         if rc not in (0, 1):
             bad(f"C10|cli-crash|{opt}", f"cli returned {rc!r}")
@@ -188,6 +202,30 @@ def same_path_history(rep, wd):
             if raised == want_safe:
                 rep.violate("C10|same-path|loader", f"path rewritten {first}->{second}->{first}: loader {'raised' if raised else 'returned'} while the file holds {name}",
                             {"engine": "E3", "history": [first, second, first], "now": name}, 2)
+    # same path, same size, same modification time, different content (a cache keyed on file metadata would not notice)
+    mal = SHAPES["likely-overtly"]
+    pairs = {"flagged": mal, "safe": asm(sbu("x" * (len(mal) - 3)), "STOP")}
+    assert len(pairs["safe"]) == len(mal)
+    for order in (("safe", "flagged", "safe"), ("flagged", "safe", "flagged")):
+        for name in order:
+            with open(path, "wb") as f:
+                f.write(pairs[name])
+            os.utime(path, (1_700_000_000, 1_700_000_000))
+            n += 1
+            got = bool(fickling.is_likely_safe(path))
+            try:
+                with open(path, "rb") as f:
+                    fickling.load(f)
+                raised = False
+            except UnsafeFileError:
+                raised = True
+            want_safe = name == "safe"
+            if got != want_safe:
+                rep.violate("C10|same-path-same-metadata|is_likely_safe", f"path rewritten {order} with equal size and mtime: is_likely_safe={got} while the file "
+                            f"holds the {name} pickle", {"engine": "E3", "history": list(order), "now": name}, 2)
+            if raised == want_safe:
+                rep.violate("C10|same-path-same-metadata|loader", f"path rewritten {order} with equal size and mtime: loader {'raised' if raised else 'returned'} "
+                            f"while the file holds the {name} pickle", {"engine": "E3", "history": list(order), "now": name}, 2)
     rep.add("same_path_queries", n)
     return n
 
